@@ -82,4 +82,12 @@ CHECKS = {
             {"pkg": "core", "run": "^TestC10MapperTable$", "quick": 1, "thorough": 1, "rapid": False},
         ],
     },
+    "C20": {
+        "level": "exploration",
+        "assumptions": ["sync.Pool does not guarantee identity: the documented reset paths (Reset, ReleaseArgs/AcquireArgs, PutMessage/GetMessage) are exercised directly and real reuse is measured (GC held off during a case)"],
+        "runs": [
+            {"pkg": "pure", "run": "^TestC20(Message|Args|Socket)$", "quick": 3000, "thorough": 150000, "shards_thorough": 8},
+            {"pkg": "core", "run": "^TestC20Context$", "quick": 800, "thorough": 40000, "shards_thorough": 8},
+        ],
+    },
 }
